@@ -477,6 +477,87 @@ func init() {
 		})
 		return valErr(r, err)
 	}, selAny)
+	// the errors of a conformance test each name their own place: one path per offending member, each error's path
+	// its own (read after all of them have been produced, and again after one of them was scribbled over)
+	defOp("ConformancePaths", "alias.out.path", func(t *taskState, a [3]cty.Value, p [3]int) opRes {
+		u, _ := a[0].Unmark()
+		t1 := u.Type()
+		flip := func(ty cty.Type) cty.Type {
+			switch ty {
+			case cty.String:
+				return cty.Number
+			case cty.Number:
+				return cty.Bool
+			case cty.Bool:
+				return cty.String
+			}
+			return ty
+		}
+		var t2 cty.Type
+		var want []string
+		switch {
+		case t1.IsObjectType() && len(t1.AttributeTypes()) > 0:
+			atys := map[string]cty.Type{}
+			for _, n := range sortedAttrNames(t1) {
+				at := t1.AttributeType(n)
+				atys[n] = flip(at)
+				if atys[n] != at {
+					want = append(want, cty.VerifFingerprintPath(cty.GetAttrPath(n)))
+				}
+			}
+			t2 = cty.Object(atys)
+		case t1.IsTupleType() && t1.Length() > 0:
+			var etys []cty.Type
+			for i, et := range t1.TupleElementTypes() {
+				etys = append(etys, flip(et))
+				if etys[i] != et {
+					want = append(want, cty.VerifFingerprintPath(cty.IndexIntPath(i)))
+				}
+			}
+			t2 = cty.Tuple(etys)
+		default:
+			return sres("not a structure")
+		}
+		errs := t1.TestConformance(t2)
+		var got []string
+		for _, e := range errs {
+			if pe, ok := e.(cty.PathError); ok {
+				got = append(got, cty.VerifFingerprintPath(pe.Path))
+			} else {
+				got = append(got, "no-path")
+			}
+		}
+		sort.Strings(got)
+		sort.Strings(want)
+		res := sres("%d %v", len(errs), got)
+		if strings.Join(got, "|") != strings.Join(want, "|") {
+			res.viol = fmt.Sprintf("TestConformance of %s against the same structure with other primitive member types names the places %v, the members that differ are at %v", t1.FriendlyName(), got, want)
+			res.violClass = "mutated-by-call"
+		}
+		if len(errs) >= 2 {
+			if pe, ok := errs[0].(cty.PathError); ok && len(pe.Path) > 0 {
+				var before []string
+				for _, e := range errs[1:] {
+					if q, ok := e.(cty.PathError); ok {
+						before = append(before, cty.VerifFingerprintPath(q.Path))
+					}
+				}
+				for i := range pe.Path {
+					pe.Path[i] = cty.GetAttrStep{Name: "overwritten by the caller"}
+				}
+				var after []string
+				for _, e := range errs[1:] {
+					if q, ok := e.(cty.PathError); ok {
+						after = append(after, cty.VerifFingerprintPath(q.Path))
+					}
+				}
+				if strings.Join(before, "|") != strings.Join(after, "|") && res.viol == "" {
+					res.viol = fmt.Sprintf("overwriting the path of one conformance error changed the paths of the others: %v -> %v", before, after)
+				}
+			}
+		}
+		return res
+	}, selAny)
 	// ---- accessors followed by mutation of the returned Go data
 	defOp("AsBigFloatMutate", "alias.out.bigfloat", func(t *taskState, a [3]cty.Value, p [3]int) opRes {
 		u, _ := a[0].Unmark()
